@@ -289,6 +289,16 @@ fn op_strategy() -> BoxedStrategy<OpDesc> {
             let m = results.iter().map(Vec::len).min().unwrap_or(0);
             (Just(results), spec_strategy(n, m, 2)).prop_map(|(results, spec)| OpDesc::Select { spec, results })
         }),
+        // many test cases / long inputs: whatever is buffered, chunked or cached beyond some size must not
+        // make the outcome depend on anything but the arguments and the generator
+        1 => (2usize..8, prop::sample::select(vec![65usize, 70, 130, 257]), any::<u64>()).prop_map(|(n, m, s)| {
+            let results = (0..n).map(|i| (0..m).map(|j| (crate::splitmix(s ^ ((i * 1000 + j) as u64)) % 4) as i64).collect()).collect();
+            OpDesc::Select { spec: Spec::Lexicase(m), results }
+        }),
+        1 => (any::<bool>(), 0.0f32..=1.0, prop::collection::vec(any::<bool>(), 200..700)).prop_map(|(bitstring, rate, genome)| OpDesc::FlipRate { bitstring, rate, genome }),
+        1 => (any::<bool>(), 0u8..3, rate(), rate(), 200usize..700).prop_map(|(plushy, ctor, add, del, len)| OpDesc::Umad { plushy, ctor, add, del, len }),
+        1 => (any::<bool>(), any::<bool>(), 200usize..700).prop_map(|(two_point, bitstring, len)| OpDesc::Xo { two_point, bitstring, len }),
+        1 => (0u8..4, prop::collection::vec(-9i64..9, 250..300)).prop_map(|(flavour, items)| OpDesc::Choice { flavour, items }),
         2 => (any::<bool>(), 0.0f32..=1.0, bits()).prop_map(|(bitstring, rate, genome)| OpDesc::FlipRate { bitstring, rate, genome }),
         1 => (any::<bool>(), bits()).prop_map(|(bitstring, genome)| OpDesc::OneOverLen { bitstring, genome }),
         3 => (any::<bool>(), 0u8..3, rate(), rate(), 0usize..16).prop_map(|(plushy, ctor, add, del, len)| OpDesc::Umad { plushy, ctor, add, del, len }),
